@@ -162,12 +162,13 @@ std::string replaceEscapeSequences(const std::string &source) {
             } else if (source[i] == 't') {
                 result += '\t';
             } else if (source[i] == 'x') {
-                std::string value = "0";
-                if (i + 1 < source.size() && std::isxdigit(source[i+1]))
-                    value += source[i++ + 1];
-                if (i + 1 < source.size() && std::isxdigit(source[i+1]))
-                    value += source[i++ + 1];
-                result += static_cast<char>(std::stoi(value, nullptr, 16));
+                // a hexadecimal escape takes all hex digits that follow; the low byte is kept
+                unsigned int value = 0;
+                while (i + 1 < source.size() && std::isxdigit(static_cast<unsigned char>(source[i+1]))) {
+                    const char c = source[i++ + 1];
+                    value = (value << 4) | static_cast<unsigned int>(std::isdigit(static_cast<unsigned char>(c)) ? c - '0' : (std::tolower(static_cast<unsigned char>(c)) - 'a' + 10));
+                }
+                result += static_cast<char>(value & 0xffU);
             } else if (source[i] >= '0' && source[i] <= '7') {
                 std::string value(1, source[i]);
                 if (i + 1 < source.size() && source[i+1] >= '0' && source[i+1] <= '7')
